@@ -48,6 +48,10 @@ var registry = []Harness{
 	{Prop: "C09", Pkg: "balance", Func: "VerifC09Locks", Link: []string{"netmap", "balance"},
 		Quick: [][]int{{0}, {1}},
 		Bound: "mint, two locks of one owner (amounts, until in -3..300 symbolic), optional burn of the first (0..y1), two ticks with symbolic epochs 1..300 (param: delivered directly / through the Netmap fan-out)"},
+	{Prop: "C09", Pkg: "balance", Func: "VerifC09TopUp", Link: []string{"netmap", "balance"},
+		Quick: [][]int{{0, 0}, {1, 1}, {0, 2}},
+		Thorough: [][]int{{0, 0}, {0, 1}, {0, 2}, {1, 0}, {1, 1}, {1, 2}},
+		Bound: "one lock (amount 0..balance, until 1..300 symbolic), then the LIVE lock account is credited with a symbolic amount (param1: public transfer by another holder / the Alphabet's transferX / a mint), two ticks with symbolic epochs (param0 = 1: through Netmap): the lock stays a lock and returns lock + credit exactly once"},
 	{Prop: "C09", Pkg: "balance", Func: "VerifC09TwoOwners", Link: []string{"netmap", "balance"},
 		Quick: [][]int{{0}, {1}},
 		Bound: "two owners, one lock each (amounts up to the whole balance, until 1..300 symbolic), one tick with a symbolic epoch (param: delivered directly / through the Netmap fan-out); witnesses with both owners locking everything until the same epoch are forced and replayed on the VM"},
@@ -81,6 +85,9 @@ var registry = []Harness{
 		Quick:    [][]int{{0, 1, 0, 0, 9, 9}, {0, 1, 1, 0, 9, 9}},
 		Thorough: [][]int{{0, 1, 0, 0, 9, 9}, {0, 1, 1, 0, 9, 9}, {0, 1, 2, 0, 1, 0}, {0, 0, 1, 0, 1, 9}, {0, 1, 0, 1, 0, 9}},
 		Bound:    "batches of two symbolic keys each for the vectors given by the params, in that order within one epoch (a lower vector revisited after a higher one was started), one commit: every vector holds its own batches in submission order"},
+	{Prop: "C14", Pkg: "container", Func: "VerifC14SecondEpoch", Link: []string{"nns", "netmap", "balance", "neofsid", "container"},
+		Quick: [][]int{{0}, {1}},
+		Bound: "vectors 0 and 1 committed; the next epoch starts with a batch for vector 1 while nothing is pending for vector 0 (param0 = 1: batches for vectors 0 and 1 follow), commit, then a third epoch with one batch for vector 0: what was accepted is the roster, in order, and every commit empties the pending roster"},
 	{Prop: "C14", Pkg: "container", Func: "VerifC14Counter", Link: []string{"container"},
 		Bound: "kernel counterToBytes/counterFromBytes for every counter 1..32767 (two symbolic counters): two bytes, order preserving, round trip"},
 	{Prop: "C14", Pkg: "container", Func: "VerifC14Signatures", Link: []string{"nns", "netmap", "balance", "neofsid", "container"},
@@ -104,6 +111,9 @@ var registry = []Harness{
 	{Prop: "C20", Pkg: "container", Func: "VerifC20Estimations", Link: []string{"nns", "netmap", "balance", "neofsid", "container"},
 		Quick: [][]int{{1, 1, 1}, {2, 1, 1}, {2, 2, 2}}, Thorough: [][]int{{1, 1, 1}, {2, 1, 1}, {1, 2, 2}, {2, 2, 2}, {1, 2, 1}},
 		Bound: "five linked contracts, one container, one storage node of the previous epoch's map; two putContainerSize with symbolic epochs (classes 1..127 / 128..32767 by params) and sizes, three refused attempts, iterateContainerSizes for a symbolic epoch, one tick with a symbolic epoch 3..32767 and its clean-up"},
+	{Prop: "C20", Unwind: 60, Pkg: "container", Func: "VerifC20EstimationSeries", Link: []string{"nns", "netmap", "balance", "neofsid", "container"},
+		Quick: [][]int{{3}, {4}},
+		Bound: "one container, one storage node, param0 (3, 4) announcements with symbolic epochs 1..127 in any order (repetitions included) and symbolic sizes, against a model (an announcement removes the node's estimations more than 3 epochs older and overwrites the one of its epoch); all announced epochs read back after every announcement, every announcement required to be accepted; then one tick with a symbolic epoch 3..140"},
 	{Prop: "C20", Pkg: "container", Func: "VerifC20EstimationIDs", Link: []string{"nns", "netmap", "balance", "neofsid", "container"},
 		Quick: [][]int{{0}, {1}, {2}},
 		Bound: "one container, one storage node, ONE estimation with a symbolic epoch (param0: exactly 0 - empty encoding / 1..127 / 128..32767) and size; listContainerSizes, getContainerSize by the listed id, iterateContainerSizes, iterateAllContainerSizes"},
@@ -146,8 +156,8 @@ var registry = []Harness{
 		Quick: [][]int{{1, 1}, {0, 1}, {0, 3}}, Thorough: [][]int{{1, 1}, {1, 4}, {0, 1}, {0, 3}, {0, 4}, {0, 7}},
 		Bound: "deposit, withdraw request, candidate registration, cheque with symbolic amounts/fees/funds/witnesses; param 0: Notary mode, param 1: number of stored Alphabet keys (the cheque is asserted with Notary or one key)"},
 	{Prop: "C19", Pkg: "alphabet", Func: "VerifC19Emit", Link: []string{"alphabet", "proxy"},
-		Quick: [][]int{{1, 1, 0, 0}, {1, 3, 0, 0}, {4, 3, 2, 0}, {4, 7, 0, 0}, {1, 3, 0, 1}}, Thorough: [][]int{{1, 1, 0, 0}, {1, 2, 0, 0}, {1, 3, 0, 0}, {4, 3, 2, 0}, {4, 7, 0, 0}, {7, 5, 6, 0}, {7, 4, 3, 0}, {4, 6, 1, 0}, {1, 1, 0, 1}, {1, 3, 0, 1}, {4, 3, 2, 1}},
-		Bound: "committee size param 0, Inner Ring size param 1, Alphabet contract index param 2; param 3 = 1: the Inner Ring is re-designated to a disjoint list in the block right before the emission; contract balance g symbolic 0..10^12; invoker symbolic (any committee member or a stranger); native GAS ledger stub (DESIGN.md 2.3)"},
+		Quick: [][]int{{1, 1, 0, 0, 0}, {1, 3, 0, 0, 0}, {4, 3, 2, 0, 0}, {4, 7, 0, 0, 0}, {1, 3, 0, 1, 0}, {1, 1, 1, 0, 2}, {4, 3, 5, 0, 7}}, Thorough: [][]int{{1, 1, 1, 0, 2}, {4, 3, 5, 0, 7}, {4, 3, 4, 0, 7}, {1, 1, 0, 0, 0}, {1, 2, 0, 0, 0}, {1, 3, 0, 0, 0}, {4, 3, 2, 0, 0}, {4, 7, 0, 0, 0}, {7, 5, 6, 0, 0}, {7, 4, 3, 0, 0}, {4, 6, 1, 0, 0}, {1, 1, 0, 1, 0}, {1, 3, 0, 1, 0}, {4, 3, 2, 1, 0}},
+		Bound: "committee size param 0, Inner Ring size param 1, Alphabet contract index param 2; param 3 = 1: the Inner Ring is re-designated to a disjoint list in the block right before the emission; param 4 (if given) = the number of Alphabet contracts recorded at deployment when it exceeds the committee size: a contract whose index is not below the committee size has no node of its own and must refuse everybody; contract balance g symbolic 0..10^12; invoker symbolic (any committee member or a stranger); native GAS ledger stub (DESIGN.md 2.3)"},
 	{Prop: "C19", Pkg: "alphabet", Func: "VerifC19Payments", Link: []string{"alphabet", "proxy", "processing", "neofs"},
 		Bound: "GAS transfers of a symbolic amount 0..1000 to Proxy, Processing and Alphabet; direct calls of their onNEP17Payment"},
 	{Prop: "C13", Pkg: "deploy", Func: "VerifC13DivideFunds", Native: true, Unwind: 20,
@@ -200,7 +210,7 @@ var registry = []Harness{
 		Bound: "a name with symbolic lifetime 1..1000 s and one record, a symbolic time span 1..1.1*10^6 ms; getRecords, resolve, getAllRecords answer exactly until the expiration instant"},
 	{Prop: "C03", Pkg: "proxy", Func: "VerifC03", Link: []string{"alphabet", "audit", "balance", "container", "neofs", "neofsid", "netmap", "nns", "processing", "proxy", "reputation", "probe1"},
 		Quick: c03Params([]int{5, 6, 7}), Thorough: c03Params([]int{1, 2, 3, 4, 5, 6, 7}),
-		Bound: "one invocation per mutating method (47 methods of 10 contracts, plus the public Balance transfer with a Null sender and Audit.put in the block right after an Inner Ring re-designation, by a dropped and by a new member; NNS is C11, update is C16) from a small fixture built through the API, arguments concrete/valid, signer set symbolic over {Alphabet 2n/3+1 account, committee n/2+1 account, Inner Ring majority account, one committee member, the named user, the named node}+stranger; committee size = param2 (5, 6, 7 in quick, 1..7 in thorough: the two thresholds differ and every residue class modulo 3 is present, since a slip in the 2n/3+1 arithmetic shows in one class only)"},
+		Bound: "one invocation per mutating method (47 methods of 10 contracts; Container put / putNamed / delete / setEACL also with a non-empty session token, so that NeoFSID's own Alphabet check cannot stand in for a missing one; plus the public Balance transfer with a Null sender and Audit.put in the block right after an Inner Ring re-designation, by a dropped and by a new member; NNS is C11, update is C16) from a small fixture built through the API, arguments concrete/valid, signer set symbolic over {Alphabet 2n/3+1 account, committee n/2+1 account, Inner Ring majority account, one committee member, the named user, the named node}+stranger; committee size = param2 (5, 6, 7 in quick, 1..7 in thorough: the two thresholds differ and every residue class modulo 3 is present, since a slip in the 2n/3+1 arithmetic shows in one class only)"},
 	{Prop: "C03", Pkg: "proxy", Func: "VerifC03Verify", Link: []string{"alphabet", "netmap", "neofs", "processing", "proxy"},
 		Quick: [][]int{{5}, {6}, {7}}, Thorough: [][]int{{1}, {2}, {3}, {4}, {5}, {6}, {7}},
 		Bound: "verify of Proxy, Alphabet and Processing with the same symbolic signer set"},
@@ -237,7 +247,7 @@ var registry = []Harness{
 }
 
 func c03Params(sizes []int) [][]int {
-	counts := []int{7, 11, 11, 6, 8, 2}
+	counts := []int{7, 11, 16, 6, 8, 2}
 	var out [][]int
 	for _, n := range sizes {
 		for g, c := range counts {
